@@ -54,6 +54,8 @@ type Contract struct {
 	Opaque     bool // do not look into the body even without contract clauses
 	NoReturn   bool
 	Replay     string
+	Uses       []*Clause // lemma instances assumed at entry: name(args)
+	Nilable    bool      // the receiver may be nil (no non-nil assumption at entry)
 	File       string
 	Line       int
 	used       bool
@@ -75,6 +77,7 @@ type SpecFn struct {
 }
 
 type Lemma struct {
+	Params    []QVar
 	Induction string
 	Name  string
 	Pkg   string
@@ -106,7 +109,7 @@ type ContractSet struct {
 var clauseKeywords = map[string]bool{
 	"func": true, "spec": true, "extern": true, "iface": true, "closure": true, "requires": true, "ensures": true,
 	"loop": true, "modifies": true, "inline": true, "noinline": true, "trusted": true, "pure": true, "lemma": true,
-	"axiom": true, "ghost": true, "type": true, "opaque": true, "noreturn": true, "replay": true, "recspec": true, "uspec": true,
+	"axiom": true, "ghost": true, "type": true, "opaque": true, "noreturn": true, "replay": true, "recspec": true, "uspec": true, "uses": true, "nilable": true,
 }
 
 var propsRe = regexp.MustCompile(`^\[((?:C[0-9]+)(?:\s*,\s*C[0-9]+)*)\]\s*`)
@@ -332,6 +335,16 @@ func (cs *ContractSet) LoadFile(path, pkgPath string) {
 					cur.Modifies = append(cur.Modifies, ModItem{Src: it, Expr: e})
 				}
 			}
+		case "uses":
+			if cur != nil {
+				if cl := mkClause("uses", rest); cl != nil {
+					cur.Uses = append(cur.Uses, cl)
+				}
+			}
+		case "nilable":
+			if cur != nil {
+				cur.Nilable = true
+			}
 		case "inline":
 			if cur != nil {
 				cur.Inline = true
@@ -433,6 +446,16 @@ func (cs *ContractSet) LoadFile(path, pkgPath string) {
 					name = strings.TrimSpace(name[:j])
 				}
 			}
+			var lparams []QVar
+			if j := strings.Index(name, "("); j > 0 && strings.HasSuffix(name, ")") {
+				for _, p := range strings.Split(name[j+1:len(name)-1], ",") {
+					f := strings.Fields(strings.TrimSpace(p))
+					if len(f) == 2 {
+						lparams = append(lparams, QVar{f[0], f[1]})
+					}
+				}
+				name = strings.TrimSpace(name[:j])
+			}
 			src := strings.TrimSpace(r2[i+1:])
 			props2, src := splitProps(src)
 			if props == nil {
@@ -451,7 +474,7 @@ func (cs *ContractSet) LoadFile(path, pkgPath string) {
 				cs.errf(path, ll.line, "%v", err)
 				continue
 			}
-			cs.Lemmas = append(cs.Lemmas, &Lemma{Induction: ind, Name: name, Pkg: pkgPath, Props: props, Expr: e, Src: src, Axiom: word == "axiom", File: path, Line: ll.line})
+			cs.Lemmas = append(cs.Lemmas, &Lemma{Params: lparams, Induction: ind, Name: name, Pkg: pkgPath, Props: props, Expr: e, Src: src, Axiom: word == "axiom", File: path, Line: ll.line})
 			cur = nil
 		case "ghost":
 			// ghost Owner.name type
